@@ -6,11 +6,11 @@ from common import from_replay, to_replay  # noqa: F401
 PID = "C10"
 COQ_MODULE = "Prop_C10"
 THEOREMS = ['C10_no_panic_no_poison', 'C10_guard_panic_poisons', 'C10_own_scoped_panic_poisons', 'C10_poisoned_still_acquires', 'C10_refuted_scoped_collection']
-CASE_MODULES = ["Monitors"]
+CASE_MODULES = ["Monitors", "Conc", "BMonitors"]
 CHECK_WITHOUT_PROOF = True
 TRUSTED = common.TRUSTED_COMMON
 ASSUMPTIONS = common.ASSUME_COMMON
-RULE = 'random API histories (1-3 threads, 4-14 calls, API-call-atomic) over a random universe of single locks, poisonable wrappers and collections of every kind / container / nesting depth <= 2 sharing leaves, with random holds of other threads present from the start; vocabulary adds panics with a live guard, panicking closures, is_poisoned, clear_poison; observation = is_poisoned of every wrapper after every call + Ok/Err seen at every wrapper position; non-trivial = history contains a panic and a Poisonable; distinct = scenario text'
+RULE = 'random API histories (1-3 threads, 4-14 calls, API-call-atomic) over a random universe of single locks, poisonable wrappers and collections of every kind / container / nesting depth <= 2 sharing leaves, with random holds of other threads present from the start; vocabulary adds panics with a live guard, panicking closures, is_poisoned, clear_poison; observation = is_poisoned of every wrapper after every call + Ok/Err seen at every wrapper position; non-trivial = history contains a panic and a Poisonable; distinct = scenario text; plus interleaved (Level B) programs of 2-4 threads over poisonable roots, most of which panic with a live guard or inside a closure while others wait for the same locks: the Ok / Err of every acquisition must agree with the panics that unwound exclusive holds before it was granted (BMonitors.v mon_C10b)'
 EXHAUSTIVE = {"quick": False, "thorough": False}
 classify = histprop.classify
 signature = histprop.signature
@@ -31,6 +31,8 @@ def nontrivial(s, r):
 def known_class(s, r):
     """F3: a panicking closure of a scoped call on something that contains a Poisonable below its root"""
     defs = dict(s.defs)
+    if s.sched:
+        return None
     for _, op in s.hist:
         if op[0] == "acq" and op[3] in ("scoped", "scopedtry") and ("panic",) in op[5]:
             root = defs[op[1]]
